@@ -82,7 +82,7 @@ def check(env, rep, tier):
         rep.ob("C12.1", "state-creation", bool(creators) and all(c[2] for c in creators),
                "a BlockState is created other than as the default of the keyed map lookup: %s" % [c for c in creators if not c[2]],
                sample={"rule": "C12.1", "creation_sites": len(creators)})
-        rep.floor("C12.1", "keyed state lookups", len(creators), 2)
+        rep.floor("C12.1", "keyed state lookups", len(creators), 1)
         # ---- C12.2 key composition
         kb = find_impl_fn(prog, "core::convert::From", "block_handler::RequestCacheKey<Endpoint>", "&request::CoapRequest<Endpoint>", "from")
         if kb is None:
